@@ -16,7 +16,8 @@ VERIF = os.path.dirname(os.path.dirname(os.path.abspath(__file__)))
 SPEC = os.path.join(VERIF, "spec")
 OUT = os.path.join(VERIF, "out")
 HARNESS = os.path.join(VERIF, "harness")
-BIN = os.path.join(HARNESS, "target", "debug")
+TARGET = os.environ.get("KV_TARGET_DIR", os.path.join(HARNESS, "target"))
+BIN = os.path.join(TARGET, "debug")
 JAR = "/opt/veriftools/tla/tla2tools.jar"
 
 
@@ -62,8 +63,8 @@ def build_harness():
         import shutil
         shutil.copy("/repo/Cargo.lock", lock)
     t0 = time.time()
-    sh(["cargo", "build", "--offline", "-q"], 1800, cwd=HARNESS,
-       env={"CARGO_NET_OFFLINE": "true"})
+    sh(["cargo", "build", "--offline", "-q"] + (["--bin", os.environ["KV_BIN"]] if os.environ.get("KV_BIN") else []),
+       1800, cwd=HARNESS, env={"CARGO_NET_OFFLINE": "true", "CARGO_TARGET_DIR": TARGET})
     log("harness built in %.1fs" % (time.time() - t0))
     _built = True
 
